@@ -31,7 +31,8 @@ class TickRounding(Harness):
     nontrivial_event = "the price was off the grid and was moved"
     ticks = [1, F(1, 2), F(1, 4), F(1, 10), F(1, 100), F(1, 100000), F(7, 4), 3, 0.1, 0.01, 1e-05, 2.5]
     bounds = {"quick": "tick in {1, 1/2, 1/4, 1/10, 1/100, 1e-5, 7/4, 3 (exact rationals), and the doubles 0.1, 0.01, "
-                       "1e-05, 2.5 taken at their exact binary value}; price any real in (0, 1e9]; buy and sell",
+                       "1e-05, 2.5 taken at their exact binary value}; price any real in (0, 1e9]; buy and sell (the side as "
+                       "a bool, and for two ticks as an int or a numpy.bool_)",
               "thorough": "same"}
     reach = ("nontrivial", "on-grid")
     stubs = ("pams.market.math -> the same functions with their exact-real definitions when applied to proxies "
@@ -42,7 +43,11 @@ class TickRounding(Harness):
     agreement_runs = 24
 
     def cases(self, tier):
-        return [{"tick": i, "is_buy": b} for i in range(len(self.ticks)) for b in (True, False)]
+        out = [{"tick": i, "is_buy": b} for i in range(len(self.ticks)) for b in (True, False)]
+        # the side given by a truthy / falsy value that is not the bool singleton (an int, a numpy.bool_ as
+        # produced by a numpy comparison)
+        out += [{"tick": i, "is_buy": b, "flag": f} for i in (0, 3) for b in (True, False) for f in ("int", "numpy")]
+        return out
 
     def run(self, g, case):
         t = self.ticks[case["tick"]]
@@ -51,7 +56,13 @@ class TickRounding(Harness):
         lg = RecLogger()
         m = mk_market(tick=t, price=300, logger=lg)
         p = g.real("p", 0, 10 ** 9, lo_strict=True)
-        o = Order(agent_id=0, market_id=0, is_buy=case["is_buy"], kind=LIMIT_ORDER, volume=1, price=p)
+        side = case["is_buy"]
+        if case.get("flag") == "int":
+            side = int(side)
+        elif case.get("flag") == "numpy":
+            import numpy
+            side = numpy.bool_(side)
+        o = Order(agent_id=0, market_id=0, is_buy=side, kind=LIMIT_ORDER, volume=1, price=p)
         import pams.market as PM
         from .mathstub import ProxyMath
         old_math = PM.math
@@ -112,7 +123,8 @@ class IndexValues(Harness):
     what_symbolic = "component market prices (set by real trades) and fundamental prices (any positive reals); shares from concrete unequal sets"
     nontrivial_event = "every path computes the index from >= 2 components with unequal shares"
     share_sets = [[100, 250], [1, 3, 7], [5, 5, 5], [1000, 1]]
-    bounds = {"quick": "2-3 components, outstanding shares from {[100,250],[1,3,7],[5,5,5],[1000,1]}, prices any reals in (0,1e6], 2 time steps",
+    bounds = {"quick": "2-3 components, outstanding shares from {[100,250],[1,3,7],[5,5,5],[1000,1]} (two cases assign other "
+                       "shares to the components after the index was set up), prices any reals in (0,1e6], 2 time steps",
               "thorough": "adds symbolic positive integer shares for 2 components (nonlinear)"}
     reach = ("nontrivial",)
     agreement_runs = 8
@@ -121,6 +133,9 @@ class IndexValues(Harness):
         out = [{"shares": i, "sym_shares": False} for i in range(len(self.share_sets))]
         out.append({"shares": 1, "sym_shares": False, "subclass": True})
         out += [{"neg": "duplicate"}, {"neg": "no-shares"}]
+        # outstanding shares of a component assigned (public attribute) after the index was set up
+        out.append({"shares": 0, "sym_shares": False, "reassign": [250, 100]})
+        out.append({"shares": 1, "sym_shares": False, "reassign": [2, 3, 7]})
         if tier == "thorough":
             out.append({"shares": 0, "sym_shares": True})
         return out
@@ -166,6 +181,10 @@ class IndexValues(Harness):
                 m.outstanding_shares = s     # setup() insists on a python int
         idx.setup({"tickSize": 1, "marketPrice": 100, "markets": [m.name for m in comps]})
         sim._add_market(idx)
+        if case.get("reassign"):
+            shares = list(case["reassign"])
+            for m, s_ in zip(comps, shares):
+                m.outstanding_shares = s_
         g.note("nontrivial")
         hist = []
         for t in range(2):
@@ -217,7 +236,8 @@ class IndexInRun(Harness):
     assumptions = (rn.REDUCTION_NOTE,
                    "index-first cases: the simulator's market list is reordered after the real _setup() (a "
                    "configuration listing the index before its components is refused by IndexMarket.setup)",)
-    bounds = {"quick": "2 components (shares 100/300) + index placed last or first in the simulator's market list, 4 steps, shock on a component at t=1..2",
+    bounds = {"quick": "2 components (shares 100/300) + index placed last or first in the simulator's market list, 4 steps, shock on "
+                       "a component at t=1..2; two index markets over overlapping component sets of 3 components (shares 100/300/50)",
               "thorough": "same with 3 components"}
     reach = ("nontrivial",)
     agreement_runs = 4
@@ -227,6 +247,9 @@ class IndexInRun(Harness):
         for first in (True, False):
             for n in ((2,) if tier == "quick" else (2, 3)):
                 out.append({"index_first": first, "n": n})
+        # two index markets over different (overlapping) sets of components
+        out.append({"index_first": False, "n": 3, "two": True})
+        out.append({"index_first": True, "n": 3, "two": True})
         return out
 
     def run(self, g, case):
@@ -236,7 +259,11 @@ class IndexInRun(Harness):
         markets = {}
         for i, nme in enumerate(names):
             markets[nme] = {"class": "Market", "tickSize": 1, "marketPrice": 200 + 100 * i, "outstandingShares": shares[i]}
-        markets["IDX"] = {"class": "IndexMarket", "tickSize": 1, "marketPrice": 300, "markets": names}
+        members = {"IDX": names}
+        if case.get("two"):
+            members = {"IDX": names[:2], "IDX2": names[1:]}
+        for iname, comp in members.items():
+            markets[iname] = {"class": "IndexMarket", "tickSize": 1, "marketPrice": 300, "markets": comp}
         sessions = [rn.session(0, 4, False, False, events=["PROBE", "SHOCK"])]
         st = rn.base_settings(n_agents=1, sessions=sessions, markets=markets,
                               extra={"PROBE": {"class": "ProbeAll"},
@@ -256,17 +283,19 @@ class IndexInRun(Harness):
             # the index is moved to the front of the simulator's market list after the real _setup()
             sim.markets.insert(0, sim.markets.pop(sim.markets.index(sim.name2market["IDX"])))
         ctx.runner._run()
-        idx = sim.name2market["IDX"]
-        tot = sum(shares)
-        for t in range(4):
-            w = sum(seen[n, t] * s for n, s in zip(names, shares))
-            g.require(aeq(seen["IDX", t] * tot, w), "C17.recorded-fundamental!=weighted-average",
-                      f"index fundamental recorded for t={t} is not the weighted average of the components' values for t={t}")
-            if t >= 2:
-                g.note("nontrivial")
-            g.require(idx.get_fundamental_index(t) == seen["IDX", t], "C17.index-history-changed")
-            wp = sum(sim.name2market[n].get_market_price(t) * s for n, s in zip(names, shares))
-            g.require(aeq(idx.get_index(t) * tot, wp), "C17.index!=weighted-average-of-market-prices")
+        for iname, comp in members.items():
+            idx = sim.name2market[iname]
+            sh = [shares[names.index(n)] for n in comp]
+            tot = sum(sh)
+            for t in range(4):
+                w = sum(seen[n, t] * s for n, s in zip(comp, sh))
+                g.require(aeq(seen[iname, t] * tot, w), "C17.recorded-fundamental!=weighted-average",
+                          f"fundamental recorded by {iname} for t={t} is not the weighted average of its components' values for t={t}")
+                if t >= 2:
+                    g.note("nontrivial")
+                g.require(idx.get_fundamental_index(t) == seen[iname, t], "C17.index-history-changed")
+                wp = sum(sim.name2market[n].get_market_price(t) * s for n, s in zip(comp, sh))
+                g.require(aeq(idx.get_index(t) * tot, wp), "C17.index!=weighted-average-of-market-prices")
 
 
 class C19_TickRounding(TickRounding):
